@@ -2,7 +2,7 @@
    a successful copy, a copy whose third primitive call fails, a successful and a failed move, a removal, and a
    handle listing '../secret' that is refused before anything is touched. *)
 From Coq Require Import List Ascii String Bool Arith Lia.
-Require Import GS U20 U20b U20c.
+Require Import GS U20 U20b U20c U20d.
 Import ListNotations.
 
 Definition h0 : handle := {| h_dir := s "up"; h_file := s "p.changes"; h_listed := [s "p.deb"; s "p.dsc"] |}.
@@ -36,3 +36,8 @@ Proof. eexists. split; [vm_compute; reflexivity|]. vm_compute. repeat split. Qed
 Definition hbad : handle := {| h_dir := s "up"; h_file := s "p.changes"; h_listed := [s "p.deb"; s "../secret"] |}.
 Example C20w_traversal : forallb plain (h_listed hbad) = false /\ do_move never hbad (s "in") x0 = (x0, false) /\ do_copy never hbad (s "in") x0 = (x0, false).
 Proof. vm_compute. repeat split. Qed.
+
+(* a history: copy, then remove through the same handle *)
+Example C20w_copy_then_remove : exists x1 x2, do_copy never h0 (s "in") x0 = (x1, true) /\ do_remove never (after h0 (s "in") true) x1 = (x2, true) /\
+  fs_get (s "in", s "p.changes") (fs x2) = None /\ fs_get (s "up", s "p.changes") (fs x2) = Some (s "C") /\ fs_get (s "up", s "p.deb") (fs x2) = Some (s "D").
+Proof. eexists. eexists. split; [vm_compute; reflexivity|]. split; [vm_compute; reflexivity|]. vm_compute. repeat split. Qed.
